@@ -760,7 +760,13 @@ func crashInfoText(rest string) (kind, top, excerpt string) {
 	if strings.HasPrefix(rest, "fatal error: ") {
 		kind = "fatal"
 	}
-	if first := strings.SplitN(rest, "\n", 2)[0]; strings.HasPrefix(first, "fatal error: ") && (strings.Contains(first, "out of memory") || strings.Contains(first, "cannot allocate memory")) {
+	// the runtime writes "fatal error: " and the message with separate write calls, so a log line of another goroutine can
+	// land between them: the message is looked for in the text right behind the marker, not only on its line
+	head := rest
+	if len(head) > 1200 {
+		head = head[:1200]
+	}
+	if strings.HasPrefix(rest, "fatal error: ") && (strings.Contains(head, "out of memory") || strings.Contains(head, "cannot allocate memory")) {
 		ex := rest
 		if len(ex) > 3000 {
 			ex = ex[:3000]
